@@ -27,6 +27,27 @@ def int_bounds(T):
     return 0, (1 << bits) - 1
 
 
+_INTS = None
+
+
+def _foreign(items, item_type, rnd):
+    """Now and then hand the list its items wrapped in a *different* fixed-width integer type (same values): the
+    list codec has to bring them to its own item width."""
+    global _INTS
+    if _INTS is None:
+        _INTS = [zt.uint8_t, zt.uint16_t, zt.uint32_t, zt.int8s, zt.int16s, zt.int32s]
+    if not (isinstance(item_type, type) and issubclass(item_type, zt.FixedIntType)) or issubclass(item_type, enum.Enum):
+        return items
+    if not items or rnd.random() > 0.3:
+        return items
+    out = []
+    for v in items:
+        cands = [T2 for T2 in _INTS if not issubclass(item_type, T2) and not issubclass(T2, item_type)
+                 and int_bounds(T2)[0] <= int(v) <= int_bounds(T2)[1]]
+        out.append(rnd.choice(cands)(int(v)) if cands and rnd.random() < 0.7 else v)
+    return out
+
+
 def gen(T, rnd, size=None):
     """A valid value of wire type T. `size` biases list/bytes lengths."""
     def ln(choices):
@@ -56,9 +77,9 @@ def gen(T, rnd, size=None):
                  device_version=rnd.getrandbits(8), input_clusters_count=len(i), output_clusters_count=len(o),
                  input_clusters=i, output_clusters=o)
     if issubclass(T, (basic.LVList, basic.CompleteList)):
-        return T([gen(T._item_type, rnd) for _ in range(ln([0, 1, 3]))])
+        return T(_foreign([gen(T._item_type, rnd) for _ in range(ln([0, 1, 3]))], T._item_type, rnd))
     if issubclass(T, basic.FixedList):
-        return T([gen(T._item_type, rnd) for _ in range(T._length)])
+        return T(_foreign([gen(T._item_type, rnd) for _ in range(T._length)], T._item_type, rnd))
     if issubclass(T, zt.List):
         return T([gen(T._item_type, rnd) for _ in range(ln([0, 1, 4, 30]))])
     if issubclass(T, zdo_t.Neighbors):
@@ -93,6 +114,13 @@ def gen_cmd(cls, rnd, nopt=None, size=None):
         if p.optional and p.name not in keep:
             continue
         params[p.name] = gen(p.type, rnd, size)
+    if len(params) > 1 and rnd.random() < 0.5:
+        # keyword arguments in an order other than the schema's: the bytes must not depend on it
+        # (the library insists on the schema order among *optional* parameters; those keep it)
+        optn = set(p.name for p in opts)
+        items = [kv for kv in params.items() if kv[0] not in optn]
+        rnd.shuffle(items)
+        params = dict(items + [kv for kv in params.items() if kv[0] in optn])
     return cls(**params)
 
 
